@@ -4,10 +4,14 @@ the graph is cheaper; reference router over the exact visibility graph; the floo
 up to 1e-12 per segment, so the straight-line heuristic is admissible; inValidRegion (cpp2v) = its spec decider).
 tie: T for inValidRegion + exhaustive grid comparison of the compiled validateBendPoint with spec_validateBendPoint +
 C: on generic-position scenes the cost of the implementation's displayRoute equals the extracted model optimum to 1e-6:
-segment penalty 0 against the unrestricted visibility graph, penalties 1 and 10 against the taut class."""
+segment penalty 0 against the unrestricted visibility graph, penalties 1 and 10 against the taut class.
+A second stream ("shared") routes several connectors whose endpoints coincide exactly and then moves / adds / resizes shapes in later
+transactions (history generator of checks/c06.py): after every processTransaction every route must still cost the model optimum of
+the scene of that moment (Lee's rotational sweep keeps the swept vertices in a std::set ordered by angle, distance and VertID)."""
 import os, json, hashlib, math
 from vlib import common as C
 from checks import avoid_lib as A
+from checks import c06 as H          # history generator / sequential semantics shared with C06
 
 PID = 'C04'
 TOL = 1e-6
@@ -103,6 +107,82 @@ def run_cases(res, exe, drv, cases, stats, samples, mism):
                              model_route=[[float(x), float(y)] for x, y in mod[1]]))
 
 
+# "shared" stream: (name, segmentPenalty, transactions)
+SHARED_CONFIGS = [('shared-pen0-trans', 0, 1), ('shared-pen0-notrans', 0, 0), ('shared-pen10-trans', 10, 1)]
+
+
+def run_histories(res, exe, drv, hists, stats, mism):
+    """hists: dict(cfg, pen, trans, ops).  After every processTransaction of the history (one router) the cost of every displayRoute is
+    compared with the extracted model optimum of the scene of that moment."""
+    lines = []
+    for h in hists:
+        lines += H.hist_script(h['ops'], 0, h['pen'], h['trans'])
+    runs, rc, err = A.run_harness(exe, lines)
+    if rc != 0 or len(runs) != len(hists):
+        res.violation({'what': 'harness crashed on the shared-endpoint histories', 'rc': rc, 'stderr': err[-1500:]}, no_input=True)
+        return
+    q, meta = [], []
+    for h, run in zip(hists, runs):
+        snaps = H.simulate(h['ops'], h['trans'], generic=False) or []
+        script = H.hist_script(h['ops'], 0, h['pen'], h['trans'])
+        if run['exc'] is not None or len(run['dumps']) != len(snaps):
+            res.violation({'what': 'assertion / exception inside libavoid on a legal history (shared-endpoint stream)', 'exception': run['exc'],
+                           'script': script, 'config': h['cfg']})
+            continue
+        stats['shared_histories'] += 1
+        ppos = [i for i, o in enumerate(h['ops']) if o[0] == 'P']
+        for k, (shapes, conns) in enumerate(snaps):
+            d = run['dumps'][k]
+            polys = [shapes[i] for i in sorted(shapes)]
+            pts = [e for c in conns.values() for e in c]
+            for c in sorted(conns):
+                s, t = conns[c]
+                route = d['disp'].get(c, [])
+                q.append(A.q_chk(polys, s, t, route))
+                q.append(A.q_plain(polys, s, t) if h['pen'] == 0 else A.q_taut(h['pen'], polys, s, t))
+                meta.append((h, k, ppos[k], c, s, t, polys, route, pts.count(s) > 1 or pts.count(t) > 1))
+    ans = A.run_driver(drv, q)
+    for n, (h, k, upto, c, s, t, polys, route, coincident) in enumerate(meta):
+        chk, mod = ans[2 * n], A.parse_route_answer(ans[2 * n + 1])
+        stats['routes'] += 1
+        stats['shared_routes'] += 1
+        stats['by_config'][h['cfg']] = stats['by_config'].get(h['cfg'], 0) + 1
+        if coincident:
+            stats['shared_routes_with_coincident_endpoint'] += 1
+            if k > 0:
+                stats['shared_routes_with_coincident_endpoint_after_later_transaction'] += 1
+        base = {'config': h['cfg'], 'segmentPenalty': h['pen'], 'shapeBufferDistance': 0, 'transactions': h['trans'],
+                'history': [H.op_str(o) for o in h['ops'][:upto + 1]], 'step': k, 'connector': c, 'shapes': polys, 'src': s, 'dst': t,
+                'displayRoute': route, 'script': H.hist_script(h['ops'][:upto + 1], 0, h['pen'], h['trans']),
+                'replay': './check C04 --replay <this file>  (runs "script" on one router and compares every connector of the last dump)'}
+        if mod == 'fail':
+            res.violation(dict(base, what='the reference search failed its own certificate (model outcome SearchFail, excluded by the theorems)'),
+                          no_input=True)
+            continue
+        off = A.parse_chk(chk)
+        if off:
+            if off != [(-1, -1, 0)] and all(o[2] == 1 for o in off):
+                stats['skipped_invalid_known'] += 1
+            else:
+                stats['skipped_invalid_other'] += 1
+                mism.append(dict(base, what='displayRoute after a later transaction is not a valid obstacle-avoiding route (route_ok fails on the current '
+                                             'scene), so it is not a shortest path', offenders=off))
+            continue
+        if mod is None:
+            stats['no_path'] += 1
+            continue
+        cost, bends = A.poly_cost(route, h['pen'])
+        mcost = mod[0] / A.PICO
+        if bends > 0:
+            stats['nontrivial'].add(hashlib.sha256(repr((h['cfg'], polys, s, t)).encode()).hexdigest())
+        if abs(cost - mcost) > TOL:
+            stats['mismatch'] += 1
+            mism.append(dict(base, what='cost of the implementation route after transaction %d differs from the model optimum of the current scene by '
+                                        'more than 1e-6 (%s)' % (k, 'implementation route is LONGER than the optimum' if cost > mcost else
+                                                                 'implementation route is cheaper than the optimum of the admissible class'),
+                             implementation_cost=cost, bends=bends, model_optimum=mcost, model_route=[[float(x), float(y)] for x, y in mod[1]]))
+
+
 def run(tier):
     res = C.Result(PID, tier, 'proof')
     info = C.prove(res, PID, gen_modules=['Geometry'])
@@ -117,7 +197,8 @@ def run(tier):
     drv = A.driver()
     rng = C.SplitMix64(C.get_seed() ^ 0xC04)
     stats = {'routes': 0, 'by_config': {}, 'nontrivial': set(), 'bends_hist': {}, 'mismatch': 0, 'no_path': 0,
-             'skipped_invalid_known': 0, 'skipped_invalid_other': 0}
+             'skipped_invalid_known': 0, 'skipped_invalid_other': 0, 'shared_histories': 0, 'shared_routes': 0,
+             'shared_routes_with_coincident_endpoint': 0, 'shared_routes_with_coincident_endpoint_after_later_transaction': 0}
     vbp_ok = vbp_grid(res, drv, 3 if tier == 'quick' else 4, stats)
     n_per = 45 if tier == 'quick' else 300
     samples, mism, cases = [], [], []
@@ -129,6 +210,15 @@ def run(tier):
                               'script': A.scene_script(polys, conns, 0, pen, buf, 0, 1)})
     for i in range(0, len(cases), 300):
         run_cases(res, exe, drv, cases[i:i + 300], stats, samples, mism)
+    n_sh = 14 if tier == 'quick' else 120
+    hists = []
+    for (name, pen, trans) in SHARED_CONFIGS:
+        for k in range(n_sh):
+            ops = H.gen_history(rng, trans, False, w_add=20, w_move=50, w_resize=10, w_del=8, shared=True) if k % 2 else \
+                H.gen_history(rng, trans, False, w_add=5, w_move=65, w_resize=10, w_del=10, shared=True)
+            hists.append({'cfg': name, 'pen': pen, 'trans': trans, 'ops': ops})
+    for i in range(0, len(hists), 100):
+        run_histories(res, exe, drv, hists[i:i + 100], stats, mism)
     for m in mism[:5]:
         res.violation(m)
     res.cov.update({
@@ -141,6 +231,12 @@ def run(tier):
         'samples': samples, 'traces_validated_against_impl': stats['routes'],
         'routes_by_config': stats['by_config'], 'bends_histogram': {str(k): v for k, v in sorted(stats['bends_hist'].items())},
         'cost_mismatches': stats['mismatch'], 'no_path': stats['no_path'],
+        'shared_endpoint_stream': {'what': '2-4 polyline connectors most of which share an endpoint position exactly, dense scenes, then shape moves / adds / '
+                                           'resizes / deletes and endpoint moves (also onto another connector\'s endpoint) over several transactions; cost vs '
+                                           'model optimum after every processTransaction',
+                                   'histories': stats['shared_histories'], 'routes_compared': stats['shared_routes'],
+                                   'routes_with_a_coincident_endpoint': stats['shared_routes_with_coincident_endpoint'],
+                                   'of_those_after_a_later_transaction': stats['shared_routes_with_coincident_endpoint_after_later_transaction']},
         'invalid_routes_skipped_(C03 known finding)': stats['skipped_invalid_known'],
         'validateBendPoint_grid': {k: stats.get(k) for k in ('vbp_tuples', 'vbp_in_domain', 'vbp_first_diff')},
         'exhaustive': False})
@@ -163,7 +259,7 @@ def replay(path):
     pen = j.get('segmentPenalty', 0)
     polys = [tuple(map(tuple, P)) for P in j['shapes']]
     ids = sorted(d['shapes'].keys())
-    rpolys = [[(int(x), int(y)) for x, y in d['bshapes'][i]] for i in ids]
+    rpolys = [[(int(x), int(y)) for x, y in d['bshapes'][i]] for i in ids]      # current scene of the last dump (histories: after the last P)
     bad = 0
     for cid, route in sorted(d['disp'].items()):
         s, t = d['ends'][cid]
